@@ -580,7 +580,12 @@ pub fn finish(cx: &Cx, kf: &KnownFindings, rep: &Report) -> i32 {
     }
     if !rep.violations.is_empty() {
         let mut seen = BTreeSet::new();
-        for v in &rep.violations {
+        // an exhaustive sweep reports every violating item: print the first dozen, count the rest
+        let shown: Vec<&Violation> = rep.violations.iter().take(12).collect();
+        if rep.violations.len() > shown.len() {
+            println!("({} violating cases in all; the first {} follow, all are in the evidence file)", rep.violations.len(), shown.len());
+        }
+        for v in shown {
             let p = write_replay(cx, v);
             if seen.insert(p.clone()) {
                 println!("VIOLATION property={} replay={}", cx.id, p.display());
